@@ -39,7 +39,10 @@ Proof.
   destruct (keys_rule Sg rec (s_name s) c' fs vals j A NDo H) as [kvs [-> K]].
   destruct (unstr_attrs_present Sg rec (s_name s) c' fs vals _ A H f If) as [x Ax].
   exists kvs, f, x. split; [reflexivity|]. split; [exact Fw|]. split; [exact Ax|].
-  rewrite <- omit_rule, <- Fom, <- Fd, <- Fo. split.
+  rewrite <- omit_rule, <- Fd, <- Fo.
+  assert (EQ : (fomit f && pv_is_default (fdefault f) x) = (negb (is_special q) && pv_is_default (fdefault f) x)).
+  { destruct (fdefault f) eqn:D; [cbn [pv_is_default]; rewrite !andb_false_r; reflexivity | rewrite Fom; [reflexivity | discriminate] ..]. }
+  rewrite <- EQ. split.
   - intros I. apply (K f If) in I. destruct I as [x' [Ax' O]]. rewrite Ax in Ax'. inversion Ax'; subst x'. exact O.
   - intros O. apply (K f If). exists x. split; [exact Ax | exact O].
 Qed.
